@@ -49,6 +49,9 @@ def matches(v, k):
         elif key == "text_contains":
             if not any(want in t.get("text", "") for t in v.get("_texts", [])):
                 return False
+        elif key == "out_contains_any":
+            if not any(w in t.get("out", "") for t in v.get("_texts", []) for w in want):
+                return False
         elif have != want:
             return False
     return True
